@@ -173,8 +173,14 @@ def parse_data_types_and_routes_from_doc_ref(
             supplied_namespace = api.namespaces[namespace_context]
             if tag == 'field':
                 if '.' in val:
-                    type_name, __ = val.split('.', 1)
-                    doc_type = supplied_namespace.data_type_by_name[type_name]
+                    if val.count('.') > 1:
+                        # namespace.type.field
+                        namespace_name, type_name, __ = val.split('.', 2)
+                        namespace = api.namespaces[namespace_name]
+                    else:
+                        type_name, __ = val.split('.', 1)
+                        namespace = supplied_namespace
+                    doc_type = namespace.data_type_by_name[type_name]
                     data_types.add(doc_type)
                 else:
                     pass  # no action required, because we must be referencing the same object
